@@ -537,7 +537,7 @@ class Verifier:
                  if isinstance(n, ast.Assign) and len(n.targets) == 1
                  and isinstance(n.targets[0], ast.Name) and n.targets[0].id == c.stmt]
         if cands:
-            node = cands[0]
+            node = cands[min(c.stmt_nth, len(cands) - 1)]
             if c.stmt_like and len(cands) > 1:
                 # several assignments to the name (e.g. a default before the real one): take the
                 # one whose right-hand side has the recorded shape
